@@ -1,4 +1,5 @@
 // C13: float results are accurate to the destination precision, exact if representable; format rules
+#include <climits>
 #include "../harness/gen.hpp"
 #include <cmath>
 using namespace eng; using namespace gen; using ref::Int;
@@ -265,7 +266,26 @@ static void fixed_case(unsigned k, CaseInfo& ci) {
     REQUIRE(dcmpabs(err, unit) <= 0, "mpf_get_str(base=53, n_digits=22): \"%s\" exp %ld is more than one unit of the last requested digit away from the operand", ds.c_str(), (long)ex);
   }
 }
-static void check(ByteSource& in, CaseInfo& ci) { if (in.chance(12)) { case_init_set(in, ci); return; } switch (in.pick({10, 3, 4, 4, 5})) { case 0: case_arith(in, ci); break; case 1: case_set(in, ci); break; case 2: case_exactfn(in, ci); break; case 3: case_set_str(in, ci); break; default: case_get_str(in, ci); break; } }
+// mpf_sqrt at the ends of the exponent range: sqrt(u * B^(2k)) = sqrt(u) * B^k, and both computed roots are within the accuracy bound of the true one, so
+// the root of the shifted operand, shifted back, must agree with the root of the unshifted one to 2^(3-p). The exponent field takes every value an mp_exp_t holds.
+static void case_sqrt_exponent_extremes(ByteSource& in, CaseInfo& ci) {
+  unsigned long prec = 64 * (unsigned long)in.range(1, 5); size_t n = (size_t)in.range(1, 6); Limbs l = limbs_nz(in, n); long e0 = (long)in.srange(-3, 3);
+  static const long TG[] = {LONG_MAX, LONG_MAX - 1, LONG_MAX - 2, LONG_MIN, LONG_MIN + 1, LONG_MIN + 2, 1L << 62, -(1L << 62), (1L << 62) + 1, 1L << 40}; long target = TG[in.range(0, 9)];
+  if (((target - e0) & 1) != 0) e0 += (e0 < 3) ? 1 : -1;   /* the shift must be an even number of limbs */
+  long k = target / 2 - e0 / 2 + ((target % 2) - (e0 % 2)) / 2;   /* (target - e0) / 2 without overflow: both have the same parity */
+  mpf_t u, r0, r1; mpf_init2(u, 64 * n); mpf_init2(r0, prec); mpf_init2(r1, prec); for (size_t i = 0; i < n; i++) u->_mp_d[i] = l[i]; u->_mp_size = (int)n; u->_mp_exp = e0;
+  mpf_sqrt(r0, u); u->_mp_exp = target; mpf_sqrt(r1, u); ci.label("mpf_sqrt:exponent_extreme"); ci.nontrivial = true; ci.d("mpf_sqrt of %zu limbs with exponent %ld (and %ld), dest %lu bits", n, target, e0, prec);
+  auto done = [&]() { mpf_clear(u); mpf_clear(r0); mpf_clear(r1); };
+  int s0 = r0->_mp_size, s1 = r1->_mp_size; bool wf = s0 > 0 && s1 > 0 && r0->_mp_d[s0 - 1] != 0 && r1->_mp_d[s1 - 1] != 0 && s1 <= r1->_mp_prec + 1; long x0 = r0->_mp_exp, x1 = r1->_mp_exp;
+  Int m0 = Int::from_limbs((const uint64_t*)r0->_mp_d, (size_t)std::max(s0, 0)), m1 = Int::from_limbs((const uint64_t*)r1->_mp_d, (size_t)std::max(s1, 0)); done();
+  REQUIRE(wf, "mpf_sqrt(exponent %ld): result ill-formed or not positive (sizes %d, %d)", target, s0, s1);
+  // value0 = m0 * B^(x0 - s0), value1 shifted back = m1 * B^(x1 - k - s1); x1 - k is near x0 when the exponent is right
+  __int128 q0 = (__int128)x0 - s0, q1 = (__int128)x1 - k - s1; __int128 d = q1 - q0;
+  REQUIRE(d > -40 && d < 40, "mpf_sqrt of a value with exponent %ld limbs: the root has exponent %ld, expected about %ld (root of the same mantissa with exponent %ld has %ld)", target, x1, x0 + k, e0, x0);
+  Int a = d < 0 ? ref::shl(m0, 64 * (uint64_t)(-d)) : m0, b = d > 0 ? ref::shl(m1, 64 * (uint64_t)d) : m1; Int diff = (a - b).abs();
+  REQUIRE(ref::shl(diff, prec > 3 ? prec - 3 : 0) <= a, "mpf_sqrt: the root of the operand with exponent %ld, shifted back, differs from the root with exponent %ld by more than 2^(3-p)", target, e0);
+}
+static void check(ByteSource& in, CaseInfo& ci) { if (in.chance(12)) { if (in.chance(100)) case_sqrt_exponent_extremes(in, ci); else case_init_set(in, ci); return; }   /* (the extra draw sits inside this branch so that saved regression inputs of the other classes keep their meaning) */ switch (in.pick({10, 3, 4, 4, 5})) { case 0: case_arith(in, ci); break; case 1: case_set(in, ci); break; case 2: case_exactfn(in, ci); break; case 3: case_set_str(in, ci); break; default: case_get_str(in, ci); break; } }
 // ---- exhaustive sweep: operands of up to two limbs from {0,1,2^63-1,2^63,2^64-2,2^64-1} x exponents {-1,0,1,3} x signs, destination 64 or 128 bits ----
 static void sweep_put(F& x, uint64_t idx, uint64_t prec_bits) {   // idx in [0, 36*4*2)
   Int m = palette_int(idx % 36, 2); long ex = (long[]){-1, 0, 1, 3}[(idx / 36) % 4]; bool neg = idx >= 144; x.mk(prec_bits); size_t n = m.m.size();
